@@ -629,11 +629,25 @@ func c14Retry(c *Ctx, rx *PkgIndex, m otlpMod) {
 		if !ok {
 			return false
 		}
-		if v, ok := objOf(info, call.Fun).(*types.Var); ok && v.Name() == "waitFunc" {
+		// the wait: time.Sleep, or a call — directly or through a package-level function variable — of a function of this
+		// package with the shape func(context.Context, time.Duration) error (identified by signature, not by name)
+		isWaitSig := func(t types.Type) bool {
+			sig, ok := t.Underlying().(*types.Signature)
+			if !ok || sig.Params().Len() != 2 || sig.Results().Len() != 1 {
+				return false
+			}
+			return typeIs(sig.Params().At(0).Type(), "context", "Context") && typeIs(sig.Params().At(1).Type(), "time", "Duration")
+		}
+		if v, ok := objOf(info, call.Fun).(*types.Var); ok && !v.IsField() && v.Pkg() != nil && v.Parent() == v.Pkg().Scope() && isWaitSig(v.Type()) {
 			return true
 		}
-		if cf := callee(info, call); cf != nil && (cf.Name() == "wait" || cf.FullName() == "time.Sleep") {
-			return true
+		if cf := callee(info, call); cf != nil {
+			if cf.FullName() == "time.Sleep" {
+				return true
+			}
+			if cf.Pkg() == rx.Pkg.Types && cf.Type().(*types.Signature).Recv() == nil && isWaitSig(cf.Type()) {
+				return true
+			}
 		}
 		return false
 	}
@@ -705,7 +719,14 @@ func c14Retry(c *Ctx, rx *PkgIndex, m otlpMod) {
 			mentions := false
 			ast.Inspect(e, func(n ast.Node) bool {
 				if be, ok := n.(*ast.BinaryExpr); ok && be.Op == token.GTR {
-					if v, ok := objOf(info, be.Y).(*types.Var); ok && v.Name() == "maxElapsedTime" {
+					// the configured limit: the MaxElapsedTime field itself or a local holding it
+					y := unparen(be.Y)
+					if id, isID := y.(*ast.Ident); isID {
+						if def := g.LocalDef(info.Uses[id]); def != nil {
+							y = unparen(def)
+						}
+					}
+					if sel, isSel := y.(*ast.SelectorExpr); isSel && sel.Sel.Name == "MaxElapsedTime" {
 						mentions = true
 					}
 				}
